@@ -102,11 +102,57 @@ func c19PathEq(a, b cty.Path) bool {
 	return true
 }
 
-type c19Ref []cty.Path
+// c19PathIdent: the identity of a path as a member of a mathematical set of paths.
+// Where every key comparison is known this is c19PathEq (Equals known and true, marks
+// aside); a key that holds an unknown value — which Equals cannot decide even against
+// itself — is the same key exactly when it is RawEquals after UnmarkDeep (the identity
+// Path.Equals uses for every key).
+func c19PathIdent(a, b cty.Path) bool {
+	if len(a) != len(b) {
+		return false
+	}
+	for i := range a {
+		switch x := a[i].(type) {
+		case cty.GetAttrStep:
+			y, ok := b[i].(cty.GetAttrStep)
+			if !ok || x.Name != y.Name {
+				return false
+			}
+		case cty.IndexStep:
+			y, ok := b[i].(cty.IndexStep)
+			if !ok {
+				return false
+			}
+			eq, _ := x.Key.Equals(y.Key).Unmark()
+			if eq.IsKnown() {
+				if !eq.True() {
+					return false
+				}
+				continue
+			}
+			xk, _ := x.Key.UnmarkDeep()
+			yk, _ := y.Key.UnmarkDeep()
+			if !xk.RawEquals(yk) {
+				return false
+			}
+		}
+	}
+	return true
+}
+
+// c19Ref: a plain list of paths with linear search under a given relation (no hashing,
+// no buckets).  With eq = c19PathIdent it is the mathematical set the property speaks
+// of; with eq = c19PathEq it replays cty/set's algorithms under the relation
+// pathSetRules.Equivalent really implements (not reflexive on keys holding an unknown)
+// and is used ONLY to recognise the recorded finding `unknown-key-never-equivalent`.
+type c19Ref struct {
+	ps []cty.Path
+	eq func(a, b cty.Path) bool
+}
 
 func (r c19Ref) has(p cty.Path) bool {
-	for _, q := range r {
-		if c19PathEq(p, q) {
+	for _, q := range r.ps {
+		if r.eq(p, q) {
 			return true
 		}
 	}
@@ -116,25 +162,118 @@ func (r c19Ref) add(p cty.Path) c19Ref {
 	if r.has(p) {
 		return r
 	}
-	return append(append(c19Ref(nil), r...), p)
+	return c19Ref{append(append([]cty.Path(nil), r.ps...), p), r.eq}
 }
 func (r c19Ref) rem(p cty.Path) c19Ref {
-	var out c19Ref
-	for _, q := range r {
-		if !c19PathEq(p, q) {
-			out = append(out, q)
+	out := c19Ref{nil, r.eq}
+	for _, q := range r.ps {
+		if !r.eq(p, q) {
+			out.ps = append(out.ps, q)
 		}
 	}
 	return out
 }
+
+// sameAs: equality of the sets (mutual inclusion)
 func (r c19Ref) sameAs(o c19Ref) bool {
-	for _, q := range r {
+	for _, q := range r.ps {
 		if !o.has(q) {
 			return false
 		}
 	}
-	for _, q := range o {
+	for _, q := range o.ps {
 		if !r.has(q) {
+			return false
+		}
+	}
+	return true
+}
+
+// equalAsGo: PathSet.Equal's own algorithm (same length, every member of r found in o)
+func (r c19Ref) equalAsGo(o c19Ref) bool {
+	if len(r.ps) != len(o.ps) {
+		return false
+	}
+	for _, q := range r.ps {
+		if !o.has(q) {
+			return false
+		}
+	}
+	return true
+}
+
+// binary: the four set-algebra methods as cty/set writes them (Add into a fresh set)
+func (r c19Ref) binary(k string, o c19Ref) c19Ref {
+	n := c19Ref{nil, r.eq}
+	switch k {
+	case "union":
+		for _, q := range r.ps {
+			n = n.add(q)
+		}
+		for _, q := range o.ps {
+			n = n.add(q)
+		}
+	case "inter":
+		for _, q := range r.ps {
+			if o.has(q) {
+				n = n.add(q)
+			}
+		}
+	case "sub":
+		for _, q := range r.ps {
+			if !o.has(q) {
+				n = n.add(q)
+			}
+		}
+	default:
+		for _, q := range r.ps {
+			if !o.has(q) {
+				n = n.add(q)
+			}
+		}
+		for _, q := range o.ps {
+			if !r.has(q) {
+				n = n.add(q)
+			}
+		}
+	}
+	return n
+}
+
+// isListingOf: l is a duplicate-free listing of the set (under the set's relation)
+func (r c19Ref) isListingOf(l []cty.Path) bool {
+	if len(l) != len(r.ps) {
+		return false
+	}
+	for i, p := range l {
+		if !r.has(p) {
+			return false
+		}
+		for _, q := range l[:i] {
+			if r.eq(p, q) {
+				return false
+			}
+		}
+	}
+	return true
+}
+
+// sameMembersAs: l holds the members of r one for one (matched by identity); used for
+// the replay of the implemented relation, where a set can hold a path twice
+func (r c19Ref) sameMembersAs(l []cty.Path) bool {
+	if len(l) != len(r.ps) {
+		return false
+	}
+	used := make([]bool, len(r.ps))
+	for _, p := range l {
+		found := false
+		for i, q := range r.ps {
+			if !used[i] && c19PathIdent(p, q) {
+				used[i], found = true, true
+				break
+			}
+		}
+		if !found {
 			return false
 		}
 	}
@@ -149,13 +288,21 @@ func encPaths(ps []cty.Path) string {
 	return "(" + strings.Join(ss, " ") + ")"
 }
 
-// c19RunPS replays a history on real PathSets, records the correspondence case,
-// and (judge) checks every answer against the reference.
-func c19RunPS(ctx *Ctx, nregs int, ops []c19PSOp, judge bool, tag string) {
+// c19RunPS replays a history on real PathSets, records the correspondence case, and
+// checks every answer against the mathematical reference set.  `good` says that no key
+// of the history holds an unknown value.  Otherwise a wrong answer that is exactly the
+// answer cty/set's algorithms give under a relation that never identifies a key holding
+// an unknown with anything (itself included) is reported under the one signature
+// pathset-refines / unknown-key-never-equivalent (a recorded finding); every other
+// wrong answer, and every panic, under its own site.
+func c19RunPS(ctx *Ctx, nregs int, ops []c19PSOp, good bool, tag string) {
 	regs := make([]cty.PathSet, nregs)
-	refs := make([]c19Ref, nregs)
+	refs := make([]c19Ref, nregs) // the mathematical sets
+	defs := make([]c19Ref, nregs) // replay of the implemented relation
 	for i := range regs {
 		regs[i] = cty.NewPathSet()
+		refs[i] = c19Ref{nil, c19PathIdent}
+		defs[i] = c19Ref{nil, c19PathEq}
 	}
 	var outs, wires, lits []string
 	for _, o := range ops {
@@ -167,96 +314,67 @@ func c19RunPS(ctx *Ctx, nregs int, ops []c19PSOp, judge bool, tag string) {
 	fail := func(site, sig, what, outcome string) {
 		ctx.Fail(Failure{Site: site, Sig: sig, What: what, Input: hist, GoLit: glit, Outcome: outcome})
 	}
+	// verdict: okMath — the answer is the one the mathematical sets dictate; okDef — it is
+	// the one the replay of the implemented relation gives
+	verdict := func(okMath, okDef bool, site, sig, what, outcome string) {
+		switch {
+		case okMath:
+		case !good && okDef:
+			fail("pathset-refines", "unknown-key-never-equivalent",
+				"a path with an index key that holds an unknown value is never Equivalent to anything, itself included: Add files it again, Has does not find it, Remove leaves it ("+what+")", outcome)
+		default:
+			fail(site, sig, what, outcome)
+		}
+	}
 	pan, why := try(func() {
 		for _, o := range ops {
 			switch o.k {
 			case "add":
 				regs[o.a].Add(o.p)
 				refs[o.a] = refs[o.a].add(o.p)
+				defs[o.a] = defs[o.a].add(o.p)
 			case "addall":
 				regs[o.a].AddAllSteps(o.p)
 				for i := 1; i <= len(o.p); i++ {
 					refs[o.a] = refs[o.a].add(o.p[:i])
+					defs[o.a] = defs[o.a].add(o.p[:i])
 				}
 			case "rem":
 				regs[o.a].Remove(o.p)
 				refs[o.a] = refs[o.a].rem(o.p)
+				defs[o.a] = defs[o.a].rem(o.p)
 			case "has":
 				h := regs[o.a].Has(o.p)
 				outs = append(outs, encBool(h))
-				if judge && h != refs[o.a].has(o.p) {
-					fail("pathset-has", "has", "Has disagrees with the set of paths added and not removed", o.golit()+" = "+encBool(h))
-				}
+				verdict(h == refs[o.a].has(o.p), h == defs[o.a].has(o.p), "pathset-has", "has",
+					"Has disagrees with the set of paths added and not removed", o.golit()+" = "+encBool(h))
 			case "list":
 				l := regs[o.a].List()
 				outs = append(outs, encPaths(l))
-				if judge {
-					ok := len(l) == len(refs[o.a])
-					for i, p := range l {
-						if !refs[o.a].has(p) {
-							ok = false
-						}
-						for _, q := range l[:i] {
-							if c19PathEq(p, q) {
-								ok = false
-							}
-						}
-					}
-					if !ok {
-						fail("pathset-list", "list", "List is not a duplicate-free listing of the set", o.golit()+" = "+encPaths(l))
-					}
-				}
+				verdict(refs[o.a].isListingOf(l), defs[o.a].sameMembersAs(l), "pathset-list", "list",
+					"List is not a duplicate-free listing of the set", o.golit()+" = "+encPaths(l))
 			case "empty":
 				e := regs[o.a].Empty()
 				outs = append(outs, encBool(e))
-				if judge && e != (len(refs[o.a]) == 0) {
-					fail("pathset-empty", "empty", "Empty disagrees with the set", o.golit()+" = "+encBool(e))
-				}
+				verdict(e == (len(refs[o.a].ps) == 0), e == (len(defs[o.a].ps) == 0), "pathset-empty", "empty",
+					"Empty disagrees with the set", o.golit()+" = "+encBool(e))
 			case "equal":
 				e := regs[o.a].Equal(regs[o.b])
 				outs = append(outs, encBool(e))
-				if judge && e != refs[o.a].sameAs(refs[o.b]) {
-					fail("pathset-equal", "equal", "Equal disagrees with equality of the sets", o.golit()+" = "+encBool(e))
-				}
+				verdict(e == refs[o.a].sameAs(refs[o.b]), e == defs[o.a].equalAsGo(defs[o.b]), "pathset-equal", "equal",
+					"Equal disagrees with equality of the sets", o.golit()+" = "+encBool(e))
 			case "union":
 				regs[o.a] = regs[o.b].Union(regs[o.c])
-				n := refs[o.b]
-				for _, q := range refs[o.c] {
-					n = n.add(q)
-				}
-				refs[o.a] = n
+				refs[o.a], defs[o.a] = refs[o.b].binary(o.k, refs[o.c]), defs[o.b].binary(o.k, defs[o.c])
 			case "inter":
 				regs[o.a] = regs[o.b].Intersection(regs[o.c])
-				var n c19Ref
-				for _, q := range refs[o.b] {
-					if refs[o.c].has(q) {
-						n = append(n, q)
-					}
-				}
-				refs[o.a] = n
+				refs[o.a], defs[o.a] = refs[o.b].binary(o.k, refs[o.c]), defs[o.b].binary(o.k, defs[o.c])
 			case "sub":
 				regs[o.a] = regs[o.b].Subtract(regs[o.c])
-				var n c19Ref
-				for _, q := range refs[o.b] {
-					if !refs[o.c].has(q) {
-						n = append(n, q)
-					}
-				}
-				refs[o.a] = n
+				refs[o.a], defs[o.a] = refs[o.b].binary(o.k, refs[o.c]), defs[o.b].binary(o.k, defs[o.c])
 			case "symd":
 				regs[o.a] = regs[o.b].SymmetricDifference(regs[o.c])
-				var n c19Ref
-				for _, q := range refs[o.b] {
-					if !refs[o.c].has(q) {
-						n = append(n, q)
-					}
-				}
-				for _, q := range refs[o.c] {
-					if !refs[o.b].has(q) {
-						n = append(n, q)
-					}
-				}
-				refs[o.a] = n
+				refs[o.a], defs[o.a] = refs[o.b].binary(o.k, refs[o.c]), defs[o.b].binary(o.k, defs[o.c])
 			}
 		}
 	})
@@ -266,12 +384,11 @@ func c19RunPS(ctx *Ctx, nregs int, ops []c19PSOp, judge bool, tag string) {
 		for i := range regs {
 			l := regs[i].List()
 			finals[i] = encPaths(l)
-			if judge && !c19Ref(l).sameAs(refs[i]) {
-				fail("pathset-members", "members", fmt.Sprintf("final content of s[%d] is not the mathematical result", i), encPaths(l))
-			}
+			verdict(refs[i].isListingOf(l), defs[i].sameMembersAs(l), "pathset-members", "members",
+				fmt.Sprintf("final content of s[%d] is not the mathematical result", i), encPaths(l))
 		}
 		impl = strings.Join(append(append(outs, "|"), finals...), " ")
-	} else if judge {
+	} else {
 		sig := "panic"
 		for _, o := range ops {
 			for _, st := range o.p {
@@ -280,11 +397,10 @@ func c19RunPS(ctx *Ctx, nregs int, ops []c19PSOp, judge bool, tag string) {
 				}
 			}
 		}
+		if !good {
+			sig = "unknown-key-panic"
+		}
 		fail("pathset-no-panic", sig, "a PathSet call panicked: "+why, "panic")
-	} else {
-		// a history over keys that hold an unknown: the answers are not judged (Equivalent is
-		// not reflexive there), but a set of paths does not panic
-		fail("pathset-no-panic", "unknown-key", "a PathSet call panicked: "+why, "panic")
 	}
 	args := append([]string{fmt.Sprint(nregs)}, wires...)
 	ctx.Add("pathset.run", impl, args...)
@@ -389,6 +505,13 @@ func runC19PathSet(ctx *Ctx) {
 	mk := func(i int64) cty.Path { return cty.IndexPath(cty.NumberIntVal(i).Mark("m1")) }
 	c19RunPS(ctx, 1, []c19PSOp{{k: "add", p: mk(1)}, {k: "add", p: mk(2)}, {k: "list"}, {k: "has", p: mk(2)},
 		{k: "has", p: cty.IndexIntPath(1)}, {k: "add", p: cty.IndexIntPath(2)}, {k: "list"}, {k: "rem", p: cty.IndexIntPath(1)}, {k: "list"}}, true, "marked-keys")
+	// the recorded finding pathset-refines / unknown-key-never-equivalent, minimal witness
+	// first (case 0): a path whose key holds an unknown is filed twice and never found
+	uk := cty.IndexPath(cty.UnknownVal(cty.Number))
+	c19RunPS(ctx, 1, []c19PSOp{{k: "add", p: uk}, {k: "has", p: uk}}, false, "unknown-key")
+	c19RunPS(ctx, 2, []c19PSOp{{k: "add", p: uk}, {k: "add", p: uk}, {k: "list"}, {k: "rem", p: uk}, {k: "empty"},
+		{k: "add", a: 1, p: cty.IndexPath(cty.UnknownVal(cty.Number))}, {k: "equal", a: 1, b: 1}, {k: "has", a: 1, p: cty.IndexIntPath(0)},
+		{k: "has", a: 1, p: cty.IndexPath(cty.UnknownVal(cty.Number).RefineNotNull())}}, false, "unknown-key")
 	nHist := ctx.N(600, 20000)
 	for i := 0; i < nHist; i++ {
 		nregs := 2 + ctx.R.Intn(3)
